@@ -191,6 +191,8 @@ class Runner(object):
             return s.api_cload(cmd[1])
         if op == "srtc":
             return s.api_srtc(cmd[1], None if cmd[2] is None else Fraction(cmd[2]))
+        if op == "ltp":
+            return s.api_ltp(cmd[1])
         if op == "cancel":
             if cmd[1] in s.ops and s.ops[cmd[1]].get("d") is not None and not s.ops[cmd[1]].get("is_close"):
                 s.api_cancel(cmd[1])
@@ -338,8 +340,10 @@ def generate(rng, focus="c07", nsteps=None, prefix=None, cfg=None):
                     cmd = ["send", rng.choice(GROUP_APIS), gen_keys(rng, cluster), rng.random() < 0.6, True, rng.choice(CC.GROUPS)]
                 elif k < 0.92:
                     cmd = ["cload", rng.choice(CC.GROUPS)]
-                elif k < 0.98:
+                elif k < 0.96:
                     cmd = ["srtc", rng.choice(CC.GROUPS), rng.choice([None, None, "35", "1/4"])]
+                elif k < 0.985:
+                    cmd = ["ltp", rng.sample(CC.TOPICS, rng.randrange(1, 3))]
                 else:
                     cmd = ["rtopics", rng.sample(CC.TOPICS, rng.randrange(1, 3))]
             cmds.append(cmd)
